@@ -9,6 +9,11 @@ from .facts import VERIF, CheckError
 DISCHARGED, VIOLATION, UNDECIDED = "DISCHARGED", "VIOLATION", "UNDECIDED"
 
 
+def evidence_dir():
+    """/verif/evidence, or a scratch directory for the self-test (FIR_EVIDENCE_DIR)"""
+    return os.environ.get("FIR_EVIDENCE_DIR") or os.path.join(VERIF, "evidence")
+
+
 def load_known():
     """known_findings.txt: one entry per line,
          known: property=<id> key=<rule>|<key> :: <what fails>
@@ -119,7 +124,7 @@ class Report:
             print("KNOWN-FINDING: property=%s %s [%s] (%s)" % (
                 self.prop, k.get("what", ""), full,
                 ",".join(sorted({i.cfg or "?" for i in insts}))))
-        vdir = os.path.join(VERIF, "evidence", "violations")
+        vdir = os.path.join(evidence_dir(), "violations")
         replay_paths = []
         if viol:
             os.makedirs(vdir, exist_ok=True)
@@ -198,6 +203,6 @@ class Report:
             "wall_s": round(time.time() - self.t0, 3),
             "violations": n_viol,
         }
-        os.makedirs(os.path.join(VERIF, "evidence"), exist_ok=True)
-        with open(os.path.join(VERIF, "evidence", "%s.json" % self.prop), "w") as fh:
+        os.makedirs(evidence_dir(), exist_ok=True)
+        with open(os.path.join(evidence_dir(), "%s.json" % self.prop), "w") as fh:
             json.dump(ev, fh, indent=1)
